@@ -562,10 +562,11 @@ func runC01Trial(run *ev.Run, sp *c01Spec, seed int64) {
 			allRight = false
 		}
 	}
-	if !allRight {
-		// Not equal to the oracle at some look. Rounds are counted where updates are sent; on a starved machine the
-		// receiving side can lag several rounds behind. One extension (k more rounds, then three fresh looks) decides:
-		// a wrong table that is a defect stays wrong, waiting longer can hide a violation but never make one.
+	if !allWrong && !allRight {
+		// The looks disagree with each other: one extension (k more rounds, then three fresh looks) decides. (A table
+		// that is wrong at all three looks is judged as it is: extending that case as well would double the bound on
+		// "eventually" and hide defects whose effect wears off, such as a restarted node ignored for as long as its
+		// previous uptime. Lag of this process itself is handled by the scheduling-lag watchdog below.)
 		run.Count("verdicts_extended_once", 1)
 		t.waitRounds(k, 10*nominal+20*time.Second)
 		verdicts = verdicts[:0]
@@ -656,7 +657,7 @@ func runC01Trial(run *ev.Run, sp *c01Spec, seed int64) {
 				known["routing_table"] = st.RoutingTable
 			}
 		}
-		run.Violation("route:"+strings.Join(cl, "+"), fmt.Sprintf("trial %d: routing tables wrong at 3 evaluations after %d originated rounds and again at 3 evaluations after as many more (events %v): %v", sp.Trial, k, ks, verdicts[2][0]),
+		run.Violation("route:"+strings.Join(cl, "+"), fmt.Sprintf("trial %d: routing tables wrong at 3 evaluations after %d originated rounds (events %v): %v", sp.Trial, k, ks, verdicts[2][0]),
 			map[string]any{"spec": sp, "diffs": verdicts[2], "topology": t.m.Topo().Adj, "links": linkStates, "first_wrong_node": known})
 	default:
 		run.Inconclusive(fmt.Sprintf("C01 trial %d: verdict unstable across evaluations", sp.Trial))
